@@ -11,29 +11,42 @@ open Mel.Gen
 theorem C05_weight (tx : Tx) (w : Nat) (h : tx.weight = .ok w) :
     w = min (min (tx.rawLen + (tx.covenants.map covenantWeightFromBytes).sum) U128_MAX + tx.outputs.length * 1000) U128_MAX
           - tx.inputs.length * 1000 := by
-  sorry
+  unfold Tx.weight at h
+  simp only at h
+  split at h
+  · cases h
+  · cases h; simp only [satAdd128]
 
 /-- the minimum fee is weight × multiplier / 65536 rounded down (the product saturating at u128) -/
 theorem C05_min_fee (tx : Tx) (m f : Nat) (h : tx.baseFee m = .ok f) :
     ∃ w, tx.weight = .ok w ∧ f = min (w * m) U128_MAX / 65536 := by
-  sorry
+  unfold Tx.baseFee at h
+  obtain ⟨w, hw, h⟩ := Fees.bind_ok h
+  cases h
+  exact ⟨w, hw, by simp only [satMul128]⟩
 
 /-- an undecodable covenant weighs nothing; a decodable one weighs its (saturated) instruction weight -/
 theorem C05_covenant_weight (b : Bytes) :
     covenantWeightFromBytes b = match VM.decodeAll b with | some ops => VM.weight ops | none => 0 := by
-  sorry
+  unfold covenantWeightFromBytes
+  rfl
 
 /-- every transaction of an accepted batch pays at least the minimum fee -/
 theorem C05_threshold (env : Env) (s s' : State) (txs : List Tx) (fb : Header)
     (h : applyBatch env s txs fb = .ok s') (tx : Tx) (htx : tx ∈ txs) :
     ∃ f, tx.baseFee s.feeMultiplier = .ok f ∧ f ≤ tx.fee := by
-  sorry
+  obtain ⟨rel, next, hn, _, _, _⟩ := Fees.applyBatch_next h
+  exact Fees.createNextState_threshold hn tx htx
 
 /-- a batch containing a transaction that pays less is not accepted -/
 theorem C05_underpaying_rejected (env : Env) (s : State) (txs : List Tx) (fb : Header) (tx : Tx) (htx : tx ∈ txs)
     (f : Nat) (hf : tx.baseFee s.feeMultiplier = .ok f) (hlt : tx.fee < f) :
     ∀ s', applyBatch env s txs fb ≠ .ok s' := by
-  sorry
+  intro s' h
+  obtain ⟨f', hf', hle⟩ := C05_threshold env s s' txs fb h tx htx
+  rw [hf] at hf'
+  cases hf'
+  exact Nat.lt_irrefl _ (Nat.lt_of_lt_of_le hlt hle)
 
 /-- minimum fee of a transaction at a multiplier (0 where the weight computation would crash) -/
 def minFeeOf (m : Nat) (tx : Tx) : Nat := match tx.baseFee m with | .ok f => f | _ => 0
@@ -44,14 +57,30 @@ theorem C05_split (env : Env) (s s' : State) (txs : List Tx) (fb : Header)
     s'.feePool = min (s.feePool + (txs.map (minFeeOf s.feeMultiplier)).sum) U128_MAX ∧
     s'.tips = min (s.tips + (txs.map fun tx => tx.fee - minFeeOf s.feeMultiplier tx).sum) U128_MAX ∧
     s'.feeMultiplier = s.feeMultiplier := by
-  sorry
+  obtain ⟨rel, next, hn, e1, e2, e3⟩ := Fees.applyBatch_next h
+  obtain ⟨i1, i2, i3⟩ := Fees.createNextState_fees hn hp ht
+  have hfun : minFeeOf s.feeMultiplier = Fees.feeOf s.feeMultiplier := by
+    funext tx; unfold minFeeOf Fees.feeOf; cases tx.baseFee s.feeMultiplier <;> rfl
+  rw [hfun]
+  exact ⟨e1.trans i2, e2.trans i3, e3.trans i1⟩
 
 /-- … and without saturation the sum of both accumulators grows by exactly the fees paid -/
 theorem C05_split_exact (env : Env) (s s' : State) (txs : List Tx) (fb : Header)
     (h : applyBatch env s txs fb = .ok s') (hp : s.feePool ≤ U128_MAX) (ht : s.tips ≤ U128_MAX)
     (hcap : s.feePool + s.tips + (txs.map (·.fee)).sum ≤ U128_MAX) :
     s'.feePool + s'.tips = s.feePool + s.tips + (txs.map (·.fee)).sum := by
-  sorry
+  obtain ⟨h1, h2, _⟩ := C05_split env s s' txs fb h hp ht
+  have hsum : (txs.map (minFeeOf s.feeMultiplier)).sum +
+      (txs.map fun tx => tx.fee - minFeeOf s.feeMultiplier tx).sum = (txs.map (·.fee)).sum := by
+    rw [Fees.sum_map_add]
+    apply Fees.sum_map_congr
+    intro tx htx
+    obtain ⟨f, hf, hle⟩ := C05_threshold env s s' txs fb h tx htx
+    have : minFeeOf s.feeMultiplier tx = f := by simp [minFeeOf, hf]
+    simp only [this]; omega
+  rw [h1, h2]
+  simp only [Nat.min_def]
+  split <;> split <;> omega
 
 /-- the coin the proposer receives -/
 def rewardCoin (s : State) (a : ProposerAction) : CoinDataHeight :=
@@ -65,7 +94,19 @@ theorem C05_reward (env : Env) (s s' : State) (a : ProposerAction) (h : collectP
     s'.feePool + s.feePool / 65536 = s.feePool ∧ s'.tips = 0 ∧
     (∀ id, id ≠ ({ txhash := env.rewardId s.height, index := 0 } : CoinID) → s'.coins.getCoin id = s.coins.getCoin id) ∧
     s'.pools = s.pools ∧ s'.stakes = s.stakes ∧ s'.feeMultiplier = s.feeMultiplier := by
-  sorry
+  unfold collectProposerFee at h
+  simp only at h
+  split at h
+  · cases h
+  · cases h
+    refine ⟨?_, ?_, rfl, ?_, rfl, rfl, rfl⟩
+    · simp only [Fees.getCoin_insertCoin_self, rewardCoin, REWARD_SHIFT]
+    · simp only [REWARD_SHIFT]
+      have : s.feePool / 2 ^ 16 ≤ s.feePool := Nat.div_le_self _ _
+      simp only [Nat.reducePow] at this ⊢
+      omega
+    · intro id hne
+      exact Fees.getCoin_insertCoin_ne _ _ _ hne
 
 /-- structure of sealing: Melmint, then the TIP-909 subsidy, then (only with an action) the fee
     multiplier move and the reward — so without an action the reward step changes nothing -/
@@ -77,6 +118,28 @@ theorem C05_seal_structure (env : Env) (s : State) (action : Option ProposerActi
       | none => ss.st = s2
       | some a => collectProposerFee env
           { s2 with feeMultiplier := moveFeeMultiplier s2.feeMultiplier a.feeMultiplierDelta s2.tip901 } a = .ok ss.st := by
-  sorry
+  unfold sealState at h
+  obtain ⟨s1, h1, h⟩ := Fees.bind_ok h
+  split at h
+  · cases h
+  · obtain ⟨s2, h2, h⟩ := Fees.bind_ok h
+    refine ⟨s1, s2, h1, h2, ?_⟩
+    cases action with
+    | none => cases h; exact ⟨rfl, rfl⟩
+    | some a =>
+      simp only at h
+      obtain ⟨s3, h3, h⟩ := Fees.bind_ok h
+      cases h
+      exact ⟨rfl, h3⟩
 
 end Mel
+
+#print axioms Mel.C05_weight
+#print axioms Mel.C05_min_fee
+#print axioms Mel.C05_covenant_weight
+#print axioms Mel.C05_threshold
+#print axioms Mel.C05_underpaying_rejected
+#print axioms Mel.C05_split
+#print axioms Mel.C05_split_exact
+#print axioms Mel.C05_reward
+#print axioms Mel.C05_seal_structure
